@@ -469,11 +469,17 @@ func seamEdits(fset *token.FileSet, j *fileJob, ti *types.Info, info *Info) erro
 				case "Pool.Put":
 					fn = "PoolPut"
 					info.PoolPuts++
-				case "Mutex.Lock", "RWMutex.Lock", "RWMutex.RLock":
+				case "Mutex.Lock", "RWMutex.Lock":
 					fn = "MutexLock"
 					info.SyncRewrite++
-				case "Mutex.Unlock", "RWMutex.Unlock", "RWMutex.RUnlock":
+				case "Mutex.Unlock", "RWMutex.Unlock":
 					fn = "MutexUnlock"
+					info.SyncRewrite++
+				case "RWMutex.RLock":
+					fn = "RLock"
+					info.SyncRewrite++
+				case "RWMutex.RUnlock":
+					fn = "RUnlock"
 					info.SyncRewrite++
 				case "Once.Do":
 					fn = "OnceDo"
